@@ -96,11 +96,9 @@ func (p *principalInstance) doIntentRequestChecks(i Intent) error {
 		logrus.Info("principal: not connected to target")
 		checkIntentWithCert := func(cert *certs.Certificate) error {
 			p.targetCert = cert
-			err := p.checkIntent(i, cert)
-			if err != nil {
-				WriteIntentDenied(p.delegateConn, err.Error())
-			}
-			return err
+			// a rejection fails the target set-up, which is reported to the
+			// delegate below: exactly one answer per request
+			return p.checkIntent(i, cert)
 		}
 		tc, err := p.setUpTargetConn(targURL, checkIntentWithCert)
 		if err != nil {
